@@ -36,6 +36,10 @@ def make_grid(rng):
     import emg3d
     hs = [rng.integers(1, 9, int(rng.integers(2, 6)))/2.0 for _ in range(3)]
     org = tuple(float(rng.integers(-4, 3)) for _ in range(3))
+    if rng.integers(0, 4) == 0:
+        # far from the origin (UTM-like coordinates): relative tolerances in
+        # the code must not swallow metre-sized features
+        org = tuple(float(rng.integers(50000, 200000)) for _ in range(3))
     return emg3d.TensorMesh(hs, org)
 
 
@@ -201,12 +205,17 @@ def suite_dipole(ctx):
         for o in out[k0:k1]:
             e = parse_ef(o, grid)
             exp = [exp[c] + e[c] for c in range(3)]
+        # rounding of (node - p0)/(p1 - p0): eps * |coordinate| / width
+        cmax = max(abs(grid.nodes_x).max(), abs(grid.nodes_y).max(),
+                   abs(grid.nodes_z).max(), 1.0)
+        hmin = min(grid.h[0].min(), grid.h[1].min(), grid.h[2].min())
+        atol = max(1e-13, 256*2.3e-16*cmax/hmin)
         for c in range(3):
-            if not np.allclose(got[c], exp[c], rtol=1e-11, atol=1e-13):
+            if not np.allclose(got[c], exp[c], rtol=1e-11, atol=atol):
                 bad.append((pts, 'xyz'[c], float(np.abs(got[c]-exp[c]).max())))
         sums = np.array([g.sum() for g in got])
         want = np.array(pts[-1]) - np.array(pts[0])
-        if not np.allclose(sums, want, atol=1e-9):
+        if not np.allclose(sums, want, atol=max(1e-9, 64*atol)):
             ctx.violation('dipole-moment',
                           f'wire {pts}: components sum to {sums.tolist()}, '
                           f'electrode difference is {want.tolist()}',
